@@ -23,8 +23,8 @@ RULE = ('cases = generated operation sequences on fsIndex (set/update/del/clear/
         'index; distinct by (index content, query)')
 ASSUMPTIONS = ['BTrees (OOBTree, fsBucket) are trusted C code outside the repository',
                'values restricted to 0 <= v < 2**48 as the statement says']
-BUDGET = {'quick': {'examples': 4000, 'workers': 8},
-          'thorough': {'examples': 80000, 'workers': 16}}
+BUDGET = {'quick': {'examples': 20000, 'workers': 8},
+          'thorough': {'examples': 200000, 'workers': 16}}
 
 PREFIXES = [0, 1, 2, 3, 0x7f, 0x100, 0xffff, 2 ** 48 - 2, 2 ** 48 - 1]
 SUFFIXES = [0, 1, 2, 3, 0x7f, 0x100, 0xfffe, 0xffff]
